@@ -13,7 +13,18 @@ where
         get_byte!(self, pos) == Some(&b)
     }
 
-    pub(super) fn skip_to_next_entry_start(&mut self) {
+    pub(super) fn skip_to_next_entry_start(&mut self, entry_start: usize) {
+        // Rewind to the start of the line on which the error was found, so that an entry
+        // starting on that line is not swallowed by the Junk. The first line of the broken
+        // entry itself is never revisited.
+        let bytes = self.source.as_ref().as_bytes();
+        let error_pos = self.ptr.min(self.length);
+        if let Some(nl) = bytes[entry_start..error_pos]
+            .iter()
+            .rposition(|b| *b == b'\n')
+        {
+            self.ptr = entry_start + nl + 1;
+        }
         while let Some(b) = get_current_byte!(self) {
             let new_line = self.ptr == 0 || get_byte!(self, self.ptr - 1) == Some(&b'\n');
 
